@@ -8,13 +8,13 @@ decorator objects by exhaustive differential runs), `Access.required` (the polic
 and path), `Access.mutate` (which check comes first in the owner-only mutators, tied to the real handlers over minisql).
 
 A route added without a guard, a dropped or weakened decorator, or an owner-only handler that no longer starts with the
-owner-filtered SELECT makes `table_ok` / `owner_filter_first_partial` fail to `decide`.
+owner-filtered SELECT makes `table_ok` / `owner_filter_first` fail to `decide`.
 -/
 namespace HailVerif.C14
 open HailVerif.Access HailVerif.Generated.BatchRoutes
 
 /-- what the guards establish about a caller that reaches the handler body (for `owner`: an authenticated active user; the
-ownership itself is the SQL filter's job, see `owner_filter_first_partial` and `owner_only_partial`) -/
+ownership itself is the SQL filter's job, see `owner_filter_first` and `owner_only`) -/
 def establishedByGuards (cls : Class) (c : Caller) : Bool :=
   match cls with
   | .pub => true
@@ -118,51 +118,41 @@ theorem deny_changes_nothing {σ : Type} (r : Route) (c : Caller) (body : σ →
 
 /-! ## owner-only mutators -/
 
-/-- handlers whose first SQL statement is the idempotency lookup by (batch_id, token) instead of the owner filter -/
-def tokenFirst : List String := ["create_update", "update_batch_fast"]
-
-/-- FULL statement about the table (false today): every owner-class route starts with the owner-filtered SELECT. -/
-def OwnerFilterFirst : Prop := ∀ r ∈ routes, required r.method r.segs = .owner → r.ownerFilter = true
-
-theorem owner_filter_first_fails : ¬ OwnerFilterFirst := by
-  intro h
-  have := h { method := .post, path := "/api/v1alpha/batches/{batch_id}/updates/create",
-              segs := ["api", "v1alpha", "batches", "{batch_id}", "updates", "create"], handler := "create_update",
-              isApi := true, decorators := [.usersOnly none, .passThrough "add_metadata_to_request"], ownerFilter := false }
-    (by decide +kernel) (by decide)
-  simp at this
-
-/-- PARTIAL: all owner-class routes except the two token-first handlers start with the owner-filtered SELECT. -/
-theorem owner_filter_first_partial :
-    ∀ r ∈ routes, required r.method r.segs = .owner → r.handler ∉ tokenFirst → r.ownerFilter = true := by
-  have h : routes.all (fun r => required r.method r.segs != .owner || tokenFirst.contains r.handler || r.ownerFilter) = true := by
-    decide +kernel
-  intro r hr hreq hnt
+/-- Every owner-class route starts with the owner-filtered SELECT (`… user = %s`), over the current table. -/
+theorem owner_filter_first : ∀ r ∈ routes, required r.method r.segs = .owner → r.ownerFilter = true := by
+  have h : routes.all (fun r => required r.method r.segs != .owner || r.ownerFilter) = true := by decide +kernel
+  intro r hr hreq
   have := List.all_eq_true.1 h r hr
-  simp only [hreq, bne_self_eq_false, Bool.false_or, Bool.or_eq_true, List.contains_eq_mem, decide_eq_true_eq] at this
-  rcases this with h1 | h2
-  · exact absurd h1 hnt
-  · exact h2
+  simpa [hreq] using this
 
-/-- FULL statement about the mutators (false today): a non-owner always gets an error and nothing changes. -/
-def OwnerOnly : Prop := ∀ (m : Mutator) (q : MutReq), q.isOwner = false → mutate m q = { ok := false, changed := false }
+/-- OWNER ONLY, full strength: a non-owner's request to any of the mutators gets an error and nothing changes — whatever
+token it carries. -/
+theorem owner_only (m : Mutator) (q : MutReq) (hno : q.isOwner = false) : mutate m q = { ok := false, changed := false } := by
+  cases m <;> simp [mutate, createBatchUpdate, hno]
 
-/-- Negation on the witness: update-fast by a non-owner who sends an existing token and empty bunch/job_groups commits. -/
-theorem owner_only_fails : ¬ OwnerOnly := by
+/-! ### the repaired defect (`_create_batch_update` before commit 4c50f4344) -/
+
+/-- the full statement for the old control flow -/
+def OwnerOnlyOld : Prop := ∀ (m : Mutator) (q : MutReq), q.isOwner = false → mutateOld m q = { ok := false, changed := false }
+
+/-- update-fast by a non-owner who sent an existing token and empty bunch/job_groups committed the update. -/
+theorem owner_only_old_fails : ¬ OwnerOnlyOld := by
   intro h
   have := h .updateFast { isOwner := false, tokenKnown := true, emptyPayload := true } rfl
-  simp [mutate, createBatchUpdate] at this
+  simp [mutateOld, createBatchUpdateOld] at this
 
-/-- PARTIAL (explicit hypothesis: the request does not carry the token of an existing update of that batch). -/
-theorem owner_only_partial (m : Mutator) (q : MutReq) (hno : q.isOwner = false) (htok : q.tokenKnown = false) :
-    mutate m q = { ok := false, changed := false } := by
-  cases m <;> simp [mutate, createBatchUpdate, hno, htok]
+/-- what did hold before the fix: with a token the non-owner did not know, refusal without change -/
+theorem owner_only_old_partial (m : Mutator) (q : MutReq) (hno : q.isOwner = false) (htok : q.tokenKnown = false) :
+    mutateOld m q = { ok := false, changed := false } := by
+  cases m <;> simp [mutateOld, createBatchUpdateOld, hno, htok]
 
-/-- Even with a known token, the only way a non-owner changes anything is the empty-payload update-fast (commit). -/
-theorem non_owner_change_is_fast_commit (m : Mutator) (q : MutReq) (hno : q.isOwner = false)
-    (hch : (mutate m q).changed = true) : m = .updateFast ∧ q.tokenKnown = true ∧ q.emptyPayload = true := by
-  cases m <;> cases ht : q.tokenKnown <;> cases he : q.emptyPayload <;>
-    simp [mutate, createBatchUpdate, hno, ht, he] at hch ⊢
+-- the two repaired behaviours, old vs. current
+example : mutateOld .updateFast { isOwner := false, tokenKnown := true, emptyPayload := true } = { ok := true, changed := true } := by decide
+example : mutate .updateFast { isOwner := false, tokenKnown := true, emptyPayload := true } = { ok := false, changed := false } := by decide
+example : mutateOld .createUpdate { isOwner := false, tokenKnown := true, emptyPayload := false } = { ok := true, changed := false } := by decide
+example : mutate .createUpdate { isOwner := false, tokenKnown := true, emptyPayload := false } = { ok := false, changed := false } := by decide
+-- idempotent retry by the owner still works
+example : mutate .createUpdate { isOwner := true, tokenKnown := true, emptyPayload := false } = { ok := true, changed := false } := by decide
 
 /-! Non-vacuity: the table has routes of every class; concrete decisions at the boundaries. -/
 
